@@ -29,6 +29,9 @@ def main():
     elif pid == 'C17':
         import shardq
         shardq.main(pid, 'quick' if tier == 'replay' else tier, rp)
+    elif pid == 'C18':
+        import pm
+        pm.main(pid, 'quick' if tier == 'replay' else tier, rp)
     elif pid == 'C12':
         import after
         after.main(pid, 'quick' if tier == 'replay' else tier, rp)
